@@ -111,8 +111,13 @@ class ResultsConsumed(Task):
         self.contracts = {"amr_kitchen.taste.taste." + worker: wk}
         pool = Record("Pool")
         pool.held = True
+        from pyvc.exec import LIBS
+        LIBS[("os.path", "getsize")] = lambda ex_, a, k: (a[0], ex_.ctx.fresh("size_of_a_binary_file"))[1]      # any size
         self_ = Record("amr_kitchen.taste.taste.Taster", cells=[{"files": list(FILES), "offsets": list(off), "indexes": indexes}, lv1],
-                       fields={"a": 0, "b": 1}, v=v, limit_level=self.limit, isgood=True, fail_on_bad=fob, pool=pool, ndims=3)
+                       fields={"a": 0, "b": 1}, v=v, limit_level=self.limit, isgood=True, fail_on_bad=fob, pool=pool, ndims=3,
+                       # the options as the constructor records them (any combination)
+                       check_binary_headers=z3.Bool("opt_headers"), check_binary_shape=z3.Bool("opt_shape"),
+                       check_binary_data=z3.Bool("opt_data"), check_boxes_coordinates=z3.Bool("opt_coordinates"))
         return {"self": self_, "args": [], "gh": gh, "fob": fob}
 
     def post(self, ex, inp, out):
